@@ -1,7 +1,10 @@
 package c11
 
 import (
+	"encoding/json"
 	"fmt"
+	"os"
+	goruntime "runtime"
 	"sync/atomic"
 	"time"
 
@@ -28,6 +31,7 @@ type limiterStub struct {
 	id    string
 	cs    *gatewayfake.Clientset
 	grant int32
+	tb    bool // grants are token buckets (qps = burst = grant)
 	calls int64
 }
 
@@ -43,8 +47,14 @@ func newLimiterStub(id string) *limiterStub {
 		ret := req.DeepCopy()
 		q := atomic.LoadInt32(&s.grant)
 		for i := range ret.Spec.LimitItemConfigurations {
-			ret.Spec.LimitItemConfigurations[i].LimitItemDetail = proxyv1alpha1.LimitItemDetail{
-				MaxRequestsInflight: &proxyv1alpha1.MaxRequestsInflightFlowControlSchema{Max: q},
+			if s.tb {
+				ret.Spec.LimitItemConfigurations[i].LimitItemDetail = proxyv1alpha1.LimitItemDetail{
+					TokenBucket: &proxyv1alpha1.TokenBucketFlowControlSchema{QPS: q, Burst: q},
+				}
+			} else {
+				ret.Spec.LimitItemConfigurations[i].LimitItemDetail = proxyv1alpha1.LimitItemDetail{
+					MaxRequestsInflight: &proxyv1alpha1.MaxRequestsInflightFlowControlSchema{Max: q},
+				}
 			}
 		}
 		return true, ret, nil
@@ -66,9 +76,20 @@ const (
 	remoteGlobal = 40
 )
 
-func remoteVer(gateOn bool) *Ver {
+// schema kinds of the remote part: 0 = max in flight + globalAllocate (effective limit measured), 1 = token bucket +
+// globalAllocate, 2 = max in flight + globalCount with a global limit that changes between versions. For 1 and 2 the
+// observable is what the limiter holds as the schema's remote configuration (deterministic; measuring a token bucket or a
+// count-strategy limiter would depend on refill / on asynchronous acquire answers).
+func remoteVer(gateOn bool, kind int, ga int32) *Ver {
+	sch := Sch{Name: remoteSchema, Kind: "max", A: remoteLocal, Strategy: "globalAllocate", GA: remoteGlobal}
+	switch kind {
+	case 1:
+		sch = Sch{Name: remoteSchema, Kind: "tb", A: 5, B: 10, Strategy: "globalAllocate", GA: 40, GB: 80}
+	case 2:
+		sch = Sch{Name: remoteSchema, Kind: "max", A: remoteLocal, Strategy: "globalCount", GA: ga}
+	}
 	v := &Ver{Cluster: "rl", Ann: "gates:GlobalRateLimiter=false", Servers: []Srv{{Idx: 0}},
-		Schemas:  []Sch{{Name: remoteSchema, Kind: "max", A: remoteLocal, Strategy: "globalAllocate", GA: remoteGlobal}},
+		Schemas:  []Sch{sch},
 		Policies: []Pol{{Verbs: []string{"*"}, Resources: []string{"*"}, Schema: remoteSchema}}}
 	if gateOn {
 		v.Ann = "gates:GlobalRateLimiter=true"
@@ -87,13 +108,52 @@ func measureSafe(r *vkit.R, ci *clusters.ClusterInfo) (out string) {
 	return out
 }
 
+// remoteObs: what requests of this schema are limited by right now. Kind 0: the measured limit. Kinds 1, 2: with the gate on,
+// the remote configuration the limiter holds for the schema ("none" while there is none) - with the gate off, the limiter
+// that GetFlowSchema hands out (the local one).
+func remoteObs(r *vkit.R, ci *clusters.ClusterInfo, kind int, gateOn bool) string {
+	if kind == 0 {
+		return measureSafe(r, ci)
+	}
+	if !gateOn {
+		out := "?"
+		vkit.Safely(func() { out = "local:" + ci.GetFlowSchema(remoteSchema).String() })
+		return out
+	}
+	fcc, ok := ci.VerifLimiter().AllFlowControls()[remoteSchema]
+	if !ok {
+		return "no such schema"
+	}
+	out := "none"
+	vkit.Safely(func() {
+		if rm := fcc.FlowControl(); rm != nil {
+			b, _ := json.Marshal(rm.Config())
+			out = string(b)
+		}
+	})
+	return out
+}
+
 func remoteHistories(r *vkit.R) {
-	n := r.N(32, 400)
-	const grace = 6 * time.Second
-	r.Assume("remote limiter: a cluster whose effective limit has not reached the server's grant within 6 s (three reconcile periods) after the fresh gateway (the control, same process, same load) reached it, is not following the limiter server")
+	n := r.N(48, 400)
+	if v := os.Getenv("C11_REMOTE_N"); v != "" {
+		fmt.Sscan(v, &n)
+	}
+	// The bound is counted in the CONTROL's progress, not in wall-clock time (a stall of the whole test process must not look
+	// like a dead reconcile loop): the fresh gateway's own reconcile loop (same period, same process) must complete
+	// controlRounds further allocate round trips while the history gateway still has not caught up.
+	const controlRounds = 4
+	r.Assume("remote limiter: a cluster whose effective limit / remote configuration has not caught up while the reconcile loop of the fresh gateway (the control: same period, same process, same load) completed 4 further rounds, is not following the limiter server")
 	r.Parallel(n, 16, func(i int, g *vkit.Rand) {
+		kind := i % 3
 		hstub := newLimiterStub(fmt.Sprintf("gw-hist-%d", i))
+		hstub.tb = kind == 1
 		grants := []int32{3, 5, 8, 13}
+		if kind == 1 {
+			grants = []int32{6, 9, 12, 15}
+		}
+		gas := []int32{40, 50, 60}
+		ga := gas[g.Intn(len(gas))]
 		atomic.StoreInt32(&hstub.grant, grants[g.Intn(len(grants))])
 		gate := g.Chance(0.7)
 		type step struct {
@@ -101,19 +161,16 @@ func remoteHistories(r *vkit.R) {
 			Grant  int32 `json:"server_grant_when_applied"`
 		}
 		steps := []step{{gate, atomic.LoadInt32(&hstub.grant)}}
-		info, err := clusters.CreateClusterInfo(remoteVer(gate).Build(mat), nil, "remote", hstub)
+		info, err := clusters.CreateClusterInfo(remoteVer(gate, kind, ga).Build(mat), nil, "remote", hstub)
 		if err != nil {
 			r.Inconclusive(fmt.Sprintf("remote history %d: CreateClusterInfo failed: %v", i, err))
 			return
 		}
 		defer info.Stop()
 		settle := func() {
-			// best effort, no verdict: give the loop a moment to apply the current grant
-			want := fmt.Sprint(remoteLocal)
-			if gate {
-				want = fmt.Sprint(atomic.LoadInt32(&hstub.grant))
-			}
-			vkit.WaitFor(30*time.Millisecond, func() bool { return measureSafe(r, info) == want })
+			// best effort, no verdict: give the loop a moment to apply the current grant / global limit
+			c0 := atomic.LoadInt64(&hstub.calls)
+			vkit.WaitFor(30*time.Millisecond, func() bool { return !gate || atomic.LoadInt64(&hstub.calls) > c0 })
 		}
 		settle()
 		phase, onOffOn := 0, false // 0: never on; 1: on; 2: off after on
@@ -137,30 +194,59 @@ func remoteHistories(r *vkit.R) {
 			if g.Chance(0.6) {
 				atomic.StoreInt32(&hstub.grant, grants[g.Intn(len(grants))])
 			}
+			if kind == 2 && g.Chance(0.6) {
+				ga = gas[g.Intn(len(gas))]
+			}
 			steps = append(steps, step{gate, atomic.LoadInt32(&hstub.grant)})
-			if err := info.Sync(remoteVer(gate).Build(mat)); err != nil {
+			if err := info.Sync(remoteVer(gate, kind, ga).Build(mat)); err != nil {
 				r.Inconclusive(fmt.Sprintf("remote history %d: Sync of a valid object failed: %v", i, err))
 				return
 			}
 			settle()
 		}
-		// the final grant: a value the server never granted before
+		// the final grant: a value the server never granted before; for the count strategy a last version with a global limit
+		// never used before (only the global limit changes: the local limiter is not touched)
 		final := int32(17 + i%7)
 		atomic.StoreInt32(&hstub.grant, final)
+		if kind == 2 {
+			ga = int32(70 + i%5)
+			steps = append(steps, step{gate, final})
+			if err := info.Sync(remoteVer(gate, kind, ga).Build(mat)); err != nil {
+				r.Inconclusive(fmt.Sprintf("remote history %d: Sync of a valid object failed: %v", i, err))
+				return
+			}
+		}
 		fstub := newLimiterStub(fmt.Sprintf("gw-fresh-%d", i))
+		fstub.tb = kind == 1
 		atomic.StoreInt32(&fstub.grant, final)
-		finfo, err := clusters.CreateClusterInfo(remoteVer(gate).Build(mat), nil, "remote", fstub)
+		finfo, err := clusters.CreateClusterInfo(remoteVer(gate, kind, ga).Build(mat), nil, "remote", fstub)
 		if err != nil {
 			r.Inconclusive(fmt.Sprintf("remote history %d: fresh CreateClusterInfo failed: %v", i, err))
 			return
 		}
 		defer finfo.Stop()
-		want := fmt.Sprint(remoteLocal)
-		if gate {
-			want = fmt.Sprint(final)
+		// the control: what the fresh gateway arrives at. Kind 0 is predictable (the grant, or the local limit with the gate
+		// off); for the other kinds it is whatever the fresh gateway holds once it has completed two reconcile rounds and
+		// holds a remote configuration (gate on).
+		want := ""
+		okF := false
+		if kind == 0 {
+			want = fmt.Sprint(remoteLocal)
+			if gate {
+				want = fmt.Sprint(final)
+			}
+			okF = vkit.WaitFor(30*time.Second, func() bool { return remoteObs(r, finfo, kind, gate) == want })
+		} else {
+			okF = vkit.WaitFor(30*time.Second, func() bool {
+				if gate && atomic.LoadInt64(&fstub.calls) < 2 {
+					return false
+				}
+				want = remoteObs(r, finfo, kind, gate)
+				return want != "none" && want != "?"
+			})
 		}
-		if !vkit.WaitFor(30*time.Second, func() bool { return measureSafe(r, finfo) == want }) {
-			r.Inconclusive(fmt.Sprintf("remote: the fresh gateway (control) did not reach the expected effective limit %s within the 30s watchdog (has %s)", want, measureSafe(r, finfo)))
+		if !okF {
+			r.Inconclusive(fmt.Sprintf("remote: the fresh gateway (control) did not reach a settled state within the 30s watchdog (kind %d, has %s)", kind, remoteObs(r, finfo, kind, gate)))
 			return
 		}
 		r.Eval(1)
@@ -173,17 +259,44 @@ func remoteHistories(r *vkit.R) {
 		if gate {
 			r.Count("remote_histories_gate_on_at_the_end", 1)
 		}
+		r.Count(fmt.Sprintf("remote_histories_schema_kind_%d", kind), 1)
 		callsBefore := atomic.LoadInt64(&hstub.calls)
-		if !vkit.WaitFor(grace, func() bool { return measureSafe(r, info) == want }) {
+		caughtUp := false
+		if gate {
+			f0 := atomic.LoadInt64(&fstub.calls)
+			if !vkit.WaitFor(120*time.Second, func() bool {
+				caughtUp = remoteObs(r, info, kind, gate) == want
+				return caughtUp || atomic.LoadInt64(&fstub.calls) >= f0+controlRounds
+			}) {
+				r.Inconclusive("remote: the reconcile loop of the fresh gateway (control) did not complete 4 rounds within the 120s watchdog")
+				return
+			}
+			if !caughtUp {
+				caughtUp = remoteObs(r, info, kind, gate) == want
+			}
+		} else {
+			// gate off: nothing asynchronous is involved, the local limiter is in effect as soon as Sync has returned
+			caughtUp = remoteObs(r, info, kind, gate) == want
+		}
+		if !caughtUp {
 			sig := "C11/remote-limiter/does-not-follow-server/" + class
 			if !gate {
 				sig = "C11/remote-limiter/limit-diverges-with-gate-off/" + class
 			}
-			r.Violation(sig, fmt.Sprintf("schema %s (local %d, global %d, globalAllocate), GlobalRateLimiter gate on=%v in the latest object, server grants %d: a fresh gateway has the effective limit %s, the gateway that processed the history has %s and made %d allocate calls while waiting",
-				remoteSchema, remoteLocal, remoteGlobal, gate, final, measureSafe(r, finfo), measureSafe(r, info), atomic.LoadInt64(&hstub.calls)-callsBefore),
+			if f := os.Getenv("C11_DEBUG_STACKS"); f != "" {
+				buf := make([]byte, 64<<20)
+				buf = buf[:goruntime.Stack(buf, true)]
+				_ = os.WriteFile(fmt.Sprintf("%s.%d", f, i), buf, 0o644)
+			}
+			kinds := []string{"max in flight, globalAllocate: measured limit", "token bucket, globalAllocate: remote configuration held", "max in flight, globalCount: remote configuration held"}
+			r.Violation(sig, fmt.Sprintf("schema %s (%s), GlobalRateLimiter gate on=%v in the latest object, server grants %d, global limit %d: a fresh gateway has %s, the gateway that processed the history has %s and made %d allocate calls while waiting",
+				remoteSchema, kinds[kind], gate, final, ga, remoteObs(r, finfo, kind, gate), remoteObs(r, info, kind, gate), atomic.LoadInt64(&hstub.calls)-callsBefore),
 				map[string]interface{}{"history": i, "versions": steps, "final_server_grant": final})
 		}
 	})
 	r.Require(r.Counter("remote_histories") >= int64(n*9/10), "remote: too few histories completed")
+	for k := 0; k < 3; k++ {
+		r.Require(r.Counter(fmt.Sprintf("remote_histories_schema_kind_%d", k)) >= int64(n/4), fmt.Sprintf("remote: too few histories with schema kind %d", k))
+	}
 	r.Require(r.Counter("remote_histories_gate_on_off_on") >= int64(n/4), "remote: too few histories in which the GlobalRateLimiter gate went on, off and on again")
 }
